@@ -94,6 +94,11 @@ type bufRun struct {
 	handedCount int
 	handedSize  int
 	wrote       bool
+	// signature help only (never part of a verdict): keys for which a BatchGet returned a value written inside a
+	// staging level (taint: key -> depth of that level) and keys whose tainting level was then discarded by
+	// Cleanup with no Flush call in between (stale).
+	taint       map[string]int
+	stale       map[string]bool
 	surfaced    bool // a flush error was reported: the transaction has to abort, nothing is judged afterwards
 	minKeys     uint64
 	predictable bool
@@ -502,7 +507,7 @@ func (b *bufRun) checkSurfaced(op string, want, got error, g *genModel) {
 }
 
 func execBuffer(sc *BufScenario, res *simkit.RunResult, dump bool) {
-	b := &bufRun{sc: sc, ctx: context.Background(), res: res, store: map[string]ent{}, flushed: map[string]ent{}, stages: []map[string]ent{{}}, stats: map[string]int{}}
+	b := &bufRun{sc: sc, ctx: context.Background(), res: res, store: map[string]ent{}, flushed: map[string]ent{}, stages: []map[string]ent{{}}, stats: map[string]int{}, taint: map[string]int{}, stale: map[string]bool{}}
 	b.db = unionstore.NewPipelinedMemDB(b.getter, b.flushFunc)
 	minKeys, minSize, forceSize := b.db.VerifFlushOption()
 	b.minKeys = minKeys
@@ -571,6 +576,19 @@ func execBuffer(sc *BufScenario, res *simkit.RunResult, dump bool) {
 			if op.K == "release" {
 				b.stages[n-2] = b.stages[n-1]
 			}
+			for k, d := range b.taint {
+				if d < n-1 {
+					continue
+				}
+				if op.K == "cleanup" {
+					b.stale[k] = true
+					delete(b.taint, k)
+				} else if d-1 == 0 {
+					delete(b.taint, k)
+				} else {
+					b.taint[k] = d - 1
+				}
+			}
 			b.stages = b.stages[:n-1]
 			b.logf("%s h%d", op.K, h)
 		case "len", "size", "dirty", "onflushing":
@@ -616,19 +634,32 @@ func execBuffer(sc *BufScenario, res *simkit.RunResult, dump bool) {
 			b.stats["end.fully-flushed"]++
 		}
 	}
-	// make sure no goroutine of the library is left parked
-	if b.flightRunning() {
-		b.finishFlight("end of run")
-	}
-	if b.db.VerifHasFlushing() {
-		done := make(chan struct{})
-		go func() { defer close(done); _ = b.db.FlushWait() }()
+	// make sure no goroutine of the library is left parked (more than one can only exist with a broken library)
+	for round := 0; round < 20; round++ {
+		progress := false
+		b.mu.Lock()
+		var parked []*flight
+		for _, f := range b.flights {
+			if f.parked {
+				parked = append(parked, f)
+			}
+		}
+		b.mu.Unlock()
+		for _, f := range parked {
+			if f == b.inflight {
+				b.finishFlight("end of run")
+			} else {
+				close(f.release)
+				synctest.Wait()
+			}
+			progress = true
+		}
+		if b.db.VerifDrain() {
+			progress = true
+		}
 		synctest.Wait()
-		select {
-		case <-done:
-		default:
-			b.db.VerifUnblock(nil)
-			synctest.Wait()
+		if !progress {
+			break
 		}
 	}
 	if !b.surfaced && len(b.viol) == 0 {
@@ -765,6 +796,16 @@ func (b *bufRun) compareRead(class, op, k string, want ent, level string, found 
 		b.violate(class, op+"-error", "%s(%q) failed: %v", op, k, err)
 		return
 	}
+	if b.stale[k] {
+		// same verdicts, one signature: the witness of the "batch-get cache survives Cleanup" defect
+		n := len(b.viol)
+		defer func() {
+			if len(b.viol) > n {
+				b.viol[n].Sig = "staged-value-cached-by-batchget-then-cleanup"
+				b.viol[n].Detail = "(the key's value was returned by a BatchGet while it was written inside a staging level; that level was then discarded by Cleanup; no Flush call since) " + b.viol[n].Detail
+			}
+		}()
+	}
 	switch {
 	case !found:
 		if present {
@@ -821,6 +862,9 @@ func (b *bufRun) doBatchGet(op BufOp) {
 		if found {
 			b.stats["read.level."+level]++
 		}
+		if d := len(b.stages) - 1; d > 0 && b.top()[k] != b.stages[0][k] {
+			b.taint[k] = d
+		}
 		b.compareRead("read-mismatch", "bget", k, want, level, found, v.Value, nil, present)
 	}
 	for k := range r.m {
@@ -857,8 +901,9 @@ func (b *bufRun) doFlush(force bool) {
 		return
 	}
 	b.logf("%s -> flushed=%v err=%v (buffered %d, min keys %d, flush running %v, staged %v)", name, r.flushed, r.err, base, b.minKeys, runningBefore, staged)
+	b.taint, b.stale = map[string]int{}, map[string]bool{}
 	if c := b.db.VerifCacheLen(); c >= 0 {
-		b.violate("cache-kept", "after-flush", "%s returned but the batch-get cache still holds %d entries", name, c)
+		b.stats["probe.cache-not-dropped-by-flush"]++ // not judged: only what reads return is
 	}
 	switch {
 	case staged:
